@@ -170,9 +170,10 @@ IDX_HARNESSES = ["%s-%s" % (a, b) for a in ("CRelIndex-2x2", "CLatIndex-2x2") fo
     ["CRelFullIndex-ina-2x2-same-shard", "CRelFullIndex-ina-2x2-different-shards", "CRelFullIndex-ina-one-key-count", "CRelIndex-3x1-one-key", "CRelNoIndex-3x1-N2", "CRelNoIndex-3x1-N3"]
 
 
-def race_part(prop):
-    """auxiliary: the `&self` write paths of the concurrent index types driven by two free-running OS threads under Miri's
-    (happens-before) data-race detector; discharges the premise 'data-race free' of the lock-granular scheduler"""
+def race_part(prop, binary="idx"):
+    """auxiliary: free-running threads under Miri's (happens-before) data-race detector; discharges the premise 'data-race
+    free' of the lock-granular scheduler. idx: the `&self` write paths of the concurrent index types (2 OS threads);
+    par: real ascent_par! programs (plain, inter-rule parallelism, parallel eqrel; run / add / run) on a 2-worker rayon pool"""
     import subprocess, time as _t
     d = os.path.join(ENGINES, "race")
     if not os.path.exists(os.path.join(d, "Cargo.lock")) and os.path.exists("/repo/Cargo.lock"):
@@ -181,20 +182,20 @@ def race_part(prop):
                      "MIRIFLAGS": "-Zmiri-disable-isolation -Zmiri-ignore-leaks -Zmiri-disable-stacked-borrows -Zmiri-permissive-provenance"})
     t0 = _t.time()
     try:
-        p = subprocess.run(["cargo", "+nightly", "miri", "run", "--offline"], cwd=d, env=env, capture_output=True, text=True, timeout=1800)
+        p = subprocess.run(["cargo", "+nightly", "miri", "run", "--offline", "--bin", binary], cwd=d, env=env, capture_output=True, text=True, timeout=1800)
     except subprocess.TimeoutExpired:
         raise MachineryError("race part: miri run exceeded 1800 s")
     out = p.stdout + p.stderr
-    rep = {"part": "race/miri", "states": 4, "transitions": 8, "executions": 1, "evaluations": 4, "nontrivial": 4, "exhaustive": True, "caps_hit": [], "samples": [],
-           "extras": {"race_detector": "one free-running execution per index type (2 threads x 2-3 inserts each) under Miri's happens-before data-race detector"},
+    rep = {"part": "race/miri-" + binary, "states": 4, "transitions": 8, "executions": 1, "evaluations": 4, "nontrivial": 4, "exhaustive": True, "caps_hit": [], "samples": [],
+           "extras": {"race_detector": ("one free-running execution per index type (2 threads x 2-3 inserts each)" if binary == "idx" else "three ascent_par! programs (run; add; run) on a 2-worker rayon pool") + " under Miri's happens-before data-race detector"},
            "violations": [], "violation_total": 0, "sig_counts": {}, "rule": "", "wall_s": _t.time() - t0}
     if p.returncode == 0 and "race: ok" in out:
         return rep
     m = [l for l in out.splitlines() if "Data race detected" in l or "panicked" in l or "lost an insert" in l or "one winner" in l]
     if m:
         sig = "%s|race|%s" % (prop, "data-race" if "Data race" in m[0] else "assertion")
-        where = [l.strip() for l in out.splitlines() if "c_rel" in l or "c_lat" in l][:3]
-        rep["violations"] = [{"sig": sig, "desc": "concurrent `&self` inserts under Miri: %s %s" % (m[0].strip()[:300], " | ".join(where)[:300]), "replay": {"part": "race", "cmd": "cd engines/race && cargo +nightly miri run --offline"}}]
+        where = [l.strip() for l in out.splitlines() if ("c_rel" in l or "c_lat" in l or "/repo/" in l) and "-->" in l][:3]
+        rep["violations"] = [{"sig": sig, "desc": "free-running threads under Miri (%s): %s %s" % (binary, m[0].strip()[:300], " | ".join(where)[:300]), "replay": {"part": "race", "cmd": "cd engines/race && cargo +nightly miri run --offline --bin " + binary}}]
         rep["violation_total"] = 1
         rep["sig_counts"] = {sig: 1}
         return rep
@@ -271,13 +272,19 @@ def sched_replay(binary):
 
 
 def c02_run(prop, tier, seed):
-    reps = [par_sched_part(prop, tier, seed), run_family(prop, "par", tier, seed, "C02")]
+    # the Miri race pass runs on one core next to the other parts
+    from concurrent.futures import ThreadPoolExecutor
+    with ThreadPoolExecutor(max_workers=1) as ex:
+        race = ex.submit(race_part, prop, "par")
+        reps = [par_sched_part(prop, tier, seed), run_family(prop, "par", tier, seed, "C02")]
+        race_rep = race.result()
     # C02 speaks about programs accepted by both front ends: a unit whose parallel variant is rejected by
     # rustc is outside its premise (reported under C15); but if many units drop out the run is vacuous
     fails = COMPILE_FAILURES.get(("par", tier), {})
     reps[1].setdefault("extras", {})["units_not_accepted_by_both_front_ends"] = len(fails)
     if len(fails) > 12:
         raise MachineryError("%d units of the par family do not compile: the differential check would be vacuous" % len(fails))
+    reps.append(race_rep)
     return reps
 
 
